@@ -399,13 +399,13 @@ static void fir_sweep_order(int n, bool thorough, bool dense, vh::Rng& rng, bool
     // wrong-length windows
     for (int type = 0; type < 4; ++type) {
         const int nn = required_len(type, n);
-        const bool c = corr && (n % 4 == type);
+        const bool c = corr && (n % 4 == type || n % 4 == (type + 1) % 4);
         chk_reject(type, n, 0.4, 0.7, nn - 1, c);
         chk_reject(type, n, 0.4, 0.7, nn + 1, c);
         if (dense) {
             chk_reject(type, n, 0.4, 0.7, 0, false);
             chk_reject(type, n, 0.4, 0.7, 1, false);
-            chk_reject(type, n, 0.4, 0.7, 2 * nn, false);
+            chk_reject(type, n, 0.4, 0.7, 2 * nn, c);
             if (nn == n + 2) chk_reject(type, n, 0.4, 0.7, n + 1, c);   // the natural but wrong choice for odd-order high-pass / band-stop
             else if (n % 2 == 1) chk_reject(type, n, 0.4, 0.7, n + 2, c);
         }
